@@ -26,12 +26,17 @@ vf_i32 VFN(vf_ev)(vf_i32 kind, vf_i32 p);
 vf_i32 VFN(vf_id)(vf_i32 mi, vf_i32 r);
 vf_i32 VFN(vf_sid)(vf_i32 si);
 vf_i32 VFN(vf_flags)(void);
+vf_i32 VFN(vf_introspect)(void);
+vf_i32 VFN(vf_is_mp11)(void);
 
 extern uint32_t vf_lc[VF_MAXLOG];
 extern int32_t vf_la[VF_MAXLOG];
 extern int vf_nlog;
 extern uint32_t vf_gmask;      /* guard valuation of the current step: bit per guard site */
-extern uint32_t vf_gcount[32]; /* consult count per site in the current step */
+extern uint32_t vf_gcount[32];
+extern uint8_t vf_gv[32];        /* guard valuation of the current step, one variable per site */
+void vf_set_guards(uint32_t m);
+void vf_nondet_guards(uint32_t fixmask, uint32_t fixval); /* consult count per site in the current step */
 extern int vf_in_prefix;
 extern uint32_t vf_inputs[VF_NIN];
 extern uint32_t vf_hookmask;
